@@ -1,5 +1,15 @@
 #!/bin/sh
-# regenerate _CoqProject from the static sources (gen/ and cases/ are per-run)
+# regenerate _CoqProject from the static sources (gen/ and cases/ are per-run).
+# A property file is listed only when every Proofs/*.v it imports exists.
 cd "$(dirname "$0")"
-{ echo "-Q . SSP"; ls *.v Model/*.v Proofs/*.v Properties/*.v 2>/dev/null; } > _CoqProject
+python3 - <<'PY'
+import glob, os, re
+out = ["-Q . SSP"] + sorted(glob.glob("*.v")) + sorted(glob.glob("Model/*.v")) + sorted(glob.glob("Proofs/*.v"))
+for p in sorted(glob.glob("Properties/*.v")):
+    src = re.sub(r"\(\*.*?\*\)", "", open(p).read(), flags=re.S)
+    deps = set(re.findall(r"\bProofs\.([A-Za-z0-9_]+)", src))
+    if all(os.path.exists("Proofs/%s.v" % d) for d in deps):
+        out.append(p)
+open("_CoqProject", "w").write("\n".join(out) + "\n")
+PY
 coq_makefile -f _CoqProject -o Makefile >/dev/null
